@@ -43,6 +43,13 @@ func c05Batches(thorough bool) []c05Batch {
 	add(c05MultiCases(thorough))
 	add(c05ArityCases(thorough))
 	add(c05SigCases(thorough))
+	// the same cases ALONE in their package: the only annotation a package holds may be one that cannot be resolved,
+	// names no interface, or is correct — nothing else is there to make the checker look anything up
+	for _, cs := range [][]*c05Case{c05QualCases(thorough), c05LocCases(), c05RecvCases(), c05UnexpCases(), c05UniverseCases()} {
+		for _, c := range cs {
+			out = append(out, c05Batch{c})
+		}
+	}
 	return out
 }
 
@@ -190,7 +197,7 @@ func C05(tier common.Tier) int {
 	if thorough {
 		pos, rc = "{param 1/1, param 2/2, result 1/1, result 2/2} x receiver {value, pointer} x {plain, &}", "all ordered pairs and triples from a pool of 11 annotations"
 	}
-	run.SetRule("state = one annotated type with its @implements lines inside a generated package (cases are packed ~48 per program; every program is type-checked by go/types and analysed by the real analyzers through checker.Analyze). Invariant per state: the implementschecker diagnostics on the type's line (code, interface, list of missing methods) equal what go/types says: IMPL01 iff no import declaration of the file brings a package in under the qualifier (explicit alias other than _ and ., else types.Package.Name() of the imported package; cross-checked against the file scope's PkgName binding), else IMPL02 iff the resolved package's scope has no interface-typed TypeName of that name, else IMPL03 iff !types.Implements(V, I) for V = T or *T, listing exactly the methods of I that types.NewMethodSet(V) lacks or has with a type that is not types.Identical. Non-trivial = the reference expects at least one diagnostic.",
+	run.SetRule("state = one annotated type with its @implements lines inside a generated package (cases are packed ~48 per program, and the qualifier / location / receiver / unexported-method / universe families are additionally run one case per program; every program is type-checked by go/types and analysed by the real analyzers through checker.Analyze). Invariant per state: the implementschecker diagnostics on the type's line (code, interface, list of missing methods) equal what go/types says: IMPL01 iff no import declaration of the file brings a package in under the qualifier (explicit alias other than _ and ., else types.Package.Name() of the imported package; cross-checked against the file scope's PkgName binding), else IMPL02 iff the resolved package's scope has no interface-typed TypeName of that name, else IMPL03 iff !types.Implements(V, I) for V = T or *T, listing exactly the methods of I that types.NewMethodSet(V) lacks or has with a type that is not types.Identical. Non-trivial = the reference expects at least one diagnostic.",
 		fmt.Sprintf("%d cases in %d programs [%s]; signature alphabet of %d type expressions, full product interface-side x implementation-side in positions %s; parameter/result lists of length 0-2 over {int,string} plus variadic/slice last parameter; %d method sources x %d interface shapes x {plain,&}; unexported-method grid; cross-package promotion grid (7 placements of interface / embedded base over packages a, b and the annotated type's own package x interface methods {exported, unexported, both} x receiver kinds of the two promoted methods {value,pointer}^2 x embedding {B, *B, E{*B}, *E{B}, embedded interface} x {plain,&}); 3-method listing grid (3^3); %d import configurations x import order {alone, after, before an unrelated import} x qualifier kinds x %d interface-name kinds; %s",
 			total, len(batches), strings.Join(fl, " "), len(c05Tau), pos, len(c05Srcs), len(c05Shapes), len(c05ImpCfgs), len(c05StdInames), rc))
 	run.Assume("go/parser, go/types (Implements, MissingMethod, NewMethodSet, Identical, file scopes) and checker.Analyze trusted",
